@@ -44,6 +44,7 @@ var c02committees = []kit.Committee{
 	kit.EqualCommittee(5),
 	kit.WeightedCommittee(0, 1, 1, 1, 1),
 	kit.WeightedCommittee(0, 0, 0, 0), // total weight 0: no subset is a quorum, nothing may be accepted
+	kit.LongIDCommittee(4),            // member ids of 42 bytes that share their first 41 bytes
 }
 
 const c02height = 5
@@ -273,7 +274,7 @@ func block0(b interfaces.Block) interfaces.Block {
 }
 
 func c02(r *Rec, replay map[string]interface{}) {
-	r.Rule = "structured: committees {4 equal,(1,2,3,4),(1,1,1,3),5 equal,(0,1,1,1,1),(0,0,0,0)} x every signer subset x {none,+duplicate,+outsider with valid key,+bad signature, signed by the rotating committee of the previous height, signed by the committee the Membership returns for any reference time other than the previous block's} x header type 0..5 x instance {=,!=} x height {-1,0,+1} x hash {block's, other} x view {0,1,2^64-1} x seed signature {valid, wrong height, garbage, empty} x previous proof {nil, valid, garbage} x {strict, soft} x block {ok, nil} (quick: at most two header/seed/prev deviations per case; thorough: full product), all signatures genuinely valid over the (possibly wrong) header; byte level: every truncation and every offset x {0x00,0xFF,+1,-1} mutation of base proofs. Oracle: acceptance implies the independent reference predicate over the re-parsed bytes; never panics. distinct_nontrivial = distinct (committee, weight class of signer set, deviation set, mode) classes"
+	r.Rule = "structured: committees {4 equal,(1,2,3,4),(1,1,1,3),5 equal,(0,1,1,1,1),(0,0,0,0),4 equal with 42-byte ids sharing a 41-byte prefix} x every signer subset x {none,+duplicate,+outsider with valid key,+bad signature, signed by the rotating committee of the previous height, signed by the committee the Membership returns for any reference time other than the previous block's} x header type 0..5 x instance {=,!=} x height {-1,0,+1} x hash {block's, other} x view {0,1,2^64-1} x seed signature {valid, wrong height, garbage, empty} x previous proof {nil, valid, garbage} x {strict, soft} x block {ok, nil} (quick: at most two header/seed/prev deviations per case; thorough: full product), all signatures genuinely valid over the (possibly wrong) header; byte level: every truncation and every offset x {0x00,0xFF,+1,-1} mutation of base proofs. Oracle: acceptance implies the independent reference predicate over the re-parsed bytes; never panics. distinct_nontrivial = distinct (committee, weight class of signer set, deviation set, mode) classes"
 	validators := make([]*lh.VerifNode, len(c02committees))
 	for i, c := range c02committees {
 		validators[i] = c02validator(c)
